@@ -5,3 +5,110 @@
 pub(crate) fn wait_id_res_addr(f: &super::WaitId) -> usize {
     crate::io_uring::op::verif_opsup::resources_addr(&f.state)
 }
+
+// ===========================================================================
+// C06: the hand-written drop paths of the owned signal stream.
+// ===========================================================================
+
+use std::mem::ManuallyDrop;
+use std::pin::Pin;
+use std::task::{Context, Poll};
+
+use crate::fd::{AsyncFd, Kind};
+use crate::io_uring::op::verif_opsup as ops;
+use crate::io_uring::op::{Singleshot, State};
+use crate::op::OpState;
+use crate::io_uring::verif_kernel as k;
+use crate::SubmissionQueue;
+
+type SigState = State<Singleshot, std::mem::MaybeUninit<super::SignalInfo>, ()>;
+
+fn sigprocmask_noop(_how: libc::c_int, _set: &libc::sigset_t) -> std::io::Result<()> {
+    Ok(())
+}
+
+fn signals_rig(free: u32) -> (SubmissionQueue, super::ReceiveSignals) {
+    k::install(k::base_table());
+    k::sq_set(0, 2 - free);
+    let sq = SubmissionQueue(crate::io_uring::sq::verif_c04::submissions_in_place(2, false, false));
+    let fd = unsafe { AsyncFd::from_raw(7, Kind::File, sq.clone()) };
+    let signals = super::Signals { fd, signals: super::SignalSet(unsafe { std::mem::zeroed() }) };
+    let state: SigState = State::new(std::mem::MaybeUninit::uninit(), ());
+    (sq, super::ReceiveSignals { signals, state })
+}
+
+//@ prop: C06
+//@ tier: quick
+//@ what: the owned signal stream (ReceiveSignals) has hand-written drop paths: dropping it, or taking the Signals back with into_inner(), while its read is in flight submits exactly one ASYNC_CANCEL for exactly that read (nothing when the queue is full) and leaves the state to the final completion (which reclaims it once: CBMC's double-free/use-after-free checks); not started / finished -> no cancel; into_inner hands back the same descriptor WITHOUT closing it and without a second drop of the state
+//@ bound: status in {NotStarted, Running, Done}; queue with room or full; drop vs into_inner (symbolic)
+//@ encodes: <process::ReceiveSignals as Drop>::drop; process::ReceiveSignals::into_inner; <io_uring::op::State as OpState>::drop; io_uring::cq::Completion::process
+//@ stubs: crate::lock -> try_lock model; <core::io::CustomOwner as Drop>::drop -> no-op; Waker -> direct calls; io_uring::process::sigprocmask (pthread_sigmask FFI) -> Ok
+#[kani::proof]
+#[kani::unwind(3)]
+#[kani::stub(crate::lock, crate::verif_stubs::lock_model)]
+#[kani::stub(<core::io::CustomOwner as core::ops::Drop>::drop, crate::verif_stubs::custom_owner_drop_noop)]
+#[kani::stub(<std::task::Waker as std::ops::Drop>::drop, crate::io_uring::verif_kernel::waker_drop_direct)]
+#[kani::stub(<std::task::Waker as std::clone::Clone>::clone, crate::io_uring::verif_kernel::waker_clone_direct)]
+#[kani::stub(std::task::Waker::wake, crate::io_uring::verif_kernel::waker_wake_direct)]
+#[kani::stub(crate::io_uring::process::sigprocmask, sigprocmask_noop)]
+fn c06_signal_stream_drop_paths() {
+    let full: bool = kani::any();
+    let (sq, mut rs) = signals_rig(if full { 0 } else { 2 });
+    let which: u8 = kani::any();
+    kani::assume(which < 3);
+    match which {
+        0 => {}
+        1 => ops::force_running(&mut rs.state, 0, 0, Some(k::waker(0))),
+        _ => ops::force_done(&mut rs.state, 128, 0),
+    }
+    let ud = ops::state_user_data(&rs.state);
+    let tail0 = k::sq_tail();
+    unsafe { k::CLOSES.v = 0 };
+    let take_back: bool = kani::any();
+    if take_back {
+        let signals = rs.into_inner();
+        assert!(signals.fd.fd() == 7 && matches!(signals.fd.kind(), Kind::File), "the same descriptor is handed back");
+        // (dropping Signals itself unblocks the signal mask and closes the fd: C07)
+        std::mem::forget(signals);
+    } else {
+        // Drop for ReceiveSignals, then its fields: Signals (unblocks the
+        // signal mask: stubbed) and the descriptor (closed through the ring,
+        // or synchronously when the queue is full: C07)
+        drop(rs);
+    }
+    let mut queued = k::sq_tail().wrapping_sub(tail0);
+    if !take_back {
+        // the descriptor's own close: the LAST request queued, or close(2)
+        if unsafe { k::CLOSES.v } == 0 {
+            assert!(queued >= 1);
+            let e = k::sqe_view(k::sqe(((k::sq_tail().wrapping_sub(1)) & 1) as usize));
+            assert!(e.opcode == 19 /* IORING_OP_CLOSE */ && e.fd == 7);
+            queued -= 1;
+        } else {
+            assert!(unsafe { k::CLOSES.v == 1 && k::LAST_CLOSED.v == 7 });
+        }
+    } else {
+        assert!(unsafe { k::CLOSES.v } == 0, "into_inner does not close the signal descriptor");
+    }
+    if which == 1 && !full {
+        assert!(queued == 1, "exactly one request: the cancel");
+        let e = k::sqe_view(k::sqe(0));
+        let mut want = k::ZERO_SQE;
+        want.opcode = 14; // IORING_OP_ASYNC_CANCEL
+        want.addr = ud;
+        want.user_data = 2;
+        want.flags = 1 << 6; // IOSQE_CQE_SKIP_SUCCESS
+        assert!(e == want, "cancels exactly the in-flight read");
+    } else {
+        assert!(queued == 0, "nothing in flight (or no room): no request");
+    }
+    if which == 1 {
+        // the final completion reclaims the abandoned state exactly once
+        let c = crate::io_uring::cq::verif_c05::completion(ud, -libc::ECANCELED, 0);
+        unsafe { crate::io_uring::cq::verif_c05::process(&c) };
+    }
+    kani::cover!(which == 1 && take_back && !full);
+    kani::cover!(which == 1 && !take_back && full);
+    kani::cover!(which == 2 && take_back);
+    std::mem::forget(sq);
+}
